@@ -13,3 +13,10 @@ pub fn __starts_with_byte(s: &[u8], c: u8) -> (r: bool)
     requires c < 128
     ensures r == (s@.len() > 0 && s@[0] == c)
 { unimplemented!() }
+/// well-formed UTF-8 (std's validation; not needed further: every accepted text is pure ASCII)
+pub uninterp spec fn is_utf8(s: Seq<u8>) -> bool;
+//@ assume str::from_utf8(..).ok() : rule R48, std: Some(the same bytes viewed as a str) exactly for well-formed UTF-8
+#[verifier::external_body]
+pub fn __from_utf8_ok<'a>(buf: &'a [u8]) -> (r: Option<&'a [u8]>)
+    ensures r is Some <==> is_utf8(buf@), r is Some ==> r.unwrap()@ == buf@
+{ unimplemented!() }
